@@ -139,3 +139,22 @@ def stinespring_kraus(rng, d_in, d_out, r, cplx=True):
     g = rmat(rng, (big, d_in), cplx)
     q, _ = np.linalg.qr(g)
     return [q[i * d_out:(i + 1) * d_out, :] for i in range(r)]
+
+
+def mixed_dtype_channel(rng, d, pattern):
+    """Trace-preserving square Kraus families whose operators have DIFFERENT dtypes (first one the narrowest).
+
+    pattern 'real-then-complex': K_0 real, later operators complex (U_i K_i with complex unitaries keeps sum K^dagger K = 1);
+    pattern 'int-then-float': an integer 0/1 diagonal projector first, then float operators on the complement.
+    """
+    if pattern == "real-then-complex":
+        ks = stinespring_kraus(rng, d, d, int(rng.integers(2, 5)), cplx=False)
+        return [np.ascontiguousarray(ks[0])] + [haar(rng, d) @ k for k in ks[1:]]
+    k = int(rng.integers(1, d))
+    proj = np.diag((np.arange(d) < k).astype(np.int64))
+    rest = np.diag((np.arange(d) >= k).astype(float))
+    r = int(rng.integers(1, 4))
+    w = rng.random(r) + 0.1
+    w /= w.sum()
+    others = [np.sqrt(w[i]) * (haar(rng, d, real=True) @ rest) for i in range(r)]
+    return [proj] + others
